@@ -11,8 +11,26 @@ fn fmt_stub2(_a: core::fmt::Arguments<'_>) -> String {
     String::new()
 }
 
+/// request shape: any in-cluster start offset, any length up to two clusters
+fn shape_any(cs: u64) -> (u64, usize) {
+    let in_off: u64 = kani::any();
+    kani::assume(in_off < cs);
+    let len: usize = kani::any();
+    kani::assume(len >= 1 && (len as u64) <= 2 * cs);
+    (in_off, len)
+}
+
+/// request shape: 1..=3 clusters, starting at the cluster boundary or 0x1200 bytes into it
+fn shape_blocks(cs: u64) -> (u64, usize) {
+    let n: u8 = kani::any();
+    kani::assume(n >= 1 && n <= 3);
+    let unaligned: bool = kani::any();
+    let in_off = if unaligned { 0x1200 } else { 0 };
+    (in_off, ((n as u64) * cs - in_off) as usize)
+}
+
 macro_rules! ge_lookup {
-    ($name:ident, $blo:expr, $bhi:expr, $flo:expr) => {
+    ($name:ident, $blo:expr, $bhi:expr, $flo:expr, $shape:ident) => {
 #[kani::proof]
 #[kani::unwind(6)]
 #[kani::stub(std::fmt::format, fmt_stub2)]
@@ -41,11 +59,8 @@ fn $name() {
     let first_idx: u64 = kani::any();
     kani::assume(first_idx >= $flo && first_idx <= 63);
     let first_cluster = ((base as u64) << 6) + first_idx;
-    let in_off: u64 = kani::any();
-    kani::assume(in_off < cs);
+    let (in_off, len) = $shape(cs);
     let off = (first_cluster << cb) + in_off;
-    let len: usize = kani::any();
-    kani::assume(len >= 1 && (len as u64) <= 2 * cs);
     let r = env.seg_ge(off, len);
     assert!(r.is_ok());
     if let Ok(v) = r {
@@ -74,10 +89,10 @@ fn $name() {
 // @timeout 1500
 // @needs GE
 // @desc the whole body of get_l2_entries (cache / L1 lookups shimmed by two adjacent L2 slices with arbitrary entries, each cached or not): it returns exactly one entry per guest cluster touched by [off, off+len), in order, and entry i is the L2 entry of guest cluster first+i taken from the RIGHT slice at the RIGHT index -- including requests that start in the middle of a slice and cross into the next one
-// @bounds two adjacent 64-entry slices (512-byte slices), arbitrary entries in the last 4 of the first, the first 4 of the second and the first 4 of the first (wrap-around witnesses); request: starts in the LAST cluster of the first slice (slice key 3, concrete), spans 1..=3 clusters, any in-cluster offsets; 64 KiB clusters (concrete); cached/uncached symbolic; both L1 entries non-zero
+// @bounds two adjacent 64-entry slices (512-byte slices), arbitrary entries in the last 4 of the first, the first 4 of the second and the first 4 of the first (wrap-around witnesses); request: starts in the LAST cluster of the first slice (slice key 3, concrete), covers 1..=3 clusters and starts at the cluster boundary or 0x1200 bytes into the cluster; 64 KiB clusters (concrete); cached/uncached symbolic; both L1 entries non-zero
 // @funcs Qcow2Dev::get_l2_entries (whole body) SplitGuestOffset::{l2_slice_key,l2_slice_index} L2Table::get_entry Qcow2Info::{cluster_round_up,cluster_round_down}
 // @stub alloc::fmt::format -> String::new()
-ge_lookup!(c01_l2_entries_lookup, 3, 3, 63);
+ge_lookup!(c01_l2_entries_lookup, 3, 3, 63, shape_blocks);
 
 // @harness c01_l2_entries_lookup_wide
 // @props C01 C09
@@ -89,4 +104,4 @@ ge_lookup!(c01_l2_entries_lookup, 3, 3, 63);
 // @bounds two adjacent 64-entry slices (512-byte slices), arbitrary entries in the last 4 of the first, the first 4 of the second and the first 4 of the first (wrap-around witnesses); request: starts in the last 2 clusters of the first slice (slice key < 16), spans 1..=3 clusters, any in-cluster offsets; 64 KiB clusters (concrete); cached/uncached symbolic; both L1 entries non-zero
 // @funcs Qcow2Dev::get_l2_entries (whole body) SplitGuestOffset::{l2_slice_key,l2_slice_index} L2Table::get_entry Qcow2Info::{cluster_round_up,cluster_round_down}
 // @stub alloc::fmt::format -> String::new()
-ge_lookup!(c01_l2_entries_lookup_wide, 0, 15, 62);
+ge_lookup!(c01_l2_entries_lookup_wide, 0, 15, 62, shape_any);
